@@ -382,7 +382,9 @@ def split_tuple_assignments(tree):
             if isinstance(s, ast.Assign) and len(s.targets) == 1 and isinstance(s.targets[0], (ast.Tuple, ast.List)) and isinstance(s.value, (ast.Tuple, ast.List)) \
                     and len(s.targets[0].elts) == len(s.value.elts) and not any(isinstance(x, ast.Starred) for x in list(s.targets[0].elts) + list(s.value.elts)):
                 ts, vs = s.targets[0].elts, s.value.elts
-                safe = all(isinstance(t, ast.Name) for t in ts)
+                # plain names, or attribute stores of constants (`r.is_read1, r.is_read2 = True, False`: no value can see an earlier store)
+                safe = all(isinstance(t, ast.Name) for t in ts) or \
+                    (all(isinstance(t, (ast.Name, ast.Attribute)) for t in ts) and all(isinstance(v, ast.Constant) for v in vs))
                 for i, t in enumerate(ts):
                     for v in vs[i + 1:]:
                         if isinstance(t, ast.Name) and t.id in names(v):
@@ -390,7 +392,7 @@ def split_tuple_assignments(tree):
                 if safe:
                     n[0] += 1
                     for t, v in zip(ts, vs):
-                        if isinstance(v, ast.Name) and v.id == t.id:
+                        if isinstance(v, ast.Name) and isinstance(t, ast.Name) and v.id == t.id:
                             continue          # `x = x`
                         out.append(ast.copy_location(ast.Assign(targets=[t], value=v), s))
                     if not out or out[-1] is None:
